@@ -117,6 +117,14 @@ def mutate_message(msg, d, rng):
                 out.append((f"{t}:{nm}", with_field(value=v, raw_value=v)))
             else:
                 out.append((f"{t}:raw:{nm}", with_field(raw_value=v)))
+            if nm == "mid" and isinstance(res, int) and res > 1 and lo < r < hi:
+                # whole-number resolution above 1: values BETWEEN two steps (just past / just short of the half step)
+                for off in (res // 2 + 1, res - 1, res // 2 - 1, 1):
+                    vv = r * res + off
+                    if t in ("NUMBER", "PGN"):
+                        out.append((f"{t}:between-steps", with_field(value=vv, raw_value=vv)))
+                    else:
+                        out.append((f"{t}:raw:between-steps", with_field(raw_value=vv)))
         out.append((f"{t}:absent", with_field(value=None, raw_value=None)))
         out.append((f"{t}:str", with_field(value="x", raw_value="x")))
         if t == "TIME":
